@@ -10,6 +10,9 @@ from .c04 import error_exits, _offset_stores, _install_sites
 from .persistord import check_atomic_replace
 
 RULES = {
+    "C10.5": "what was synced is found again (= C06.1's rounding clause): the durable read position of a StrictlyAtOnce consumer in the tail names a block by id, and recovery "
+             "re-derives ids by counting 10 MiB units; alloc_block therefore reserves exactly the request rounded up to whole units. One unit too many (`x / D + 1` for an exact "
+             "multiple) shifts every later id after a restart: the synced position no longer names its block and consumed entries are delivered again",
     "C10.1": "sync before acknowledging (GB + MPT): in Writer::write, on the FsyncSchedule::SyncEach arm, every path from Block::write to `return Ok` passes SharedMmap::flush of the "
              "written block with its error propagated; the block being sealed is flushed before it is chained; in both batch paths the publish store is dominated by a flush loop over the "
              "same write plan whose error is propagated",
@@ -308,6 +311,8 @@ def run(ctx):
     check_create_new_file(ctx, facts)
     check_atomic_replace(ctx, "C10.4", "C10.4", facts, "index::WalIndex::persist")
     check_atomic_replace(ctx, "C10.4", "C10.4", facts, "topic_clean::CleanMarkerStore::persist_map")
+    from .c06 import check_alloc_rounding
+    check_alloc_rounding(ctx, facts, rid="C10.5")
     ctx.assume("power-loss model of the property: only explicitly synced data and directory entries survive; the check decides that the syncs exist, are ordered and are propagated on every "
                "path to an acknowledgement; replay of arbitrary subsets of unsynced writes is NOT decided")
     ctx.assume("that a StrictlyAtOnce consuming read reaches WalIndex::persist before returning is C09.1's obligation")
